@@ -701,6 +701,48 @@ scenarios:
 	res.Eval("grpc-scenario", true)
 	res.Count("grpc_scenario_samples", int64(len(samples)))
 
+	// scenario gun, calls that are made and answered but whose assertion then fails: the sample
+	// still carries the documented code of the status received and the call's tag
+	for _, k := range []struct {
+		code, want int
+		assert    string
+	}{{0, 200, `payload: ["never in the answer"]`}, {3, 400, `status_code: 200`}, {5, 404, `status_code: 200`}, {14, 503, `payload: ["x"]`}} {
+		y := fmt.Sprintf(`calls:
+  - name: "c"
+    tag: "t"
+    call: "target.TargetService.Hello"
+    payload: '{"name": "code-%d"}'
+    postprocessors:
+      - type: "assert/response"
+        %s
+scenarios:
+  - name: "scn"
+    weight: 1
+    min_waiting_time: 0
+    requests: ["c"]
+`, k.code, k.assert)
+		_ = vkit.WriteMemAt(sp, []byte(y))
+		tgt.ResetCalls()
+		samples, rr, err = runPool(pool(map[string]any{"type": "grpc/scenario", "file": sp, "limit": 3},
+			map[string]any{"type": "grpc/scenario", "target": tgt.Addr}, 1), 60*time.Second)
+		c = map[string]any{"gun": "grpc/scenario", "status": k.code, "assertion_that_fails": k.assert}
+		if err != nil || rr.Err != nil || rr.Hang {
+			res.Violate("C10/grpc-scenario/run", fmt.Sprintf("pool failed: %v %v", err, rr.Err), c)
+			return
+		}
+		if got := len(tgt.Calls()); len(samples) != 3 || got != 3 {
+			res.Violate("C10/grpc-scenario/failed-assertion/sample-count", fmt.Sprintf("3 shots of one call: %d samples, the target received %d calls", len(samples), got), c)
+		}
+		for _, sm := range samples {
+			if first := strings.Split(sm.Tags, "|")[0]; first != "scn.t" || sm.Proto != k.want {
+				res.Violate("C10/grpc-scenario/failed-assertion/coding", fmt.Sprintf("the call was answered with gRPC status %d (documented code %d) and its assertion failed afterwards: the sample has tag %q and proto code %d", k.code, k.want, sm.Tags, sm.Proto), c)
+				break
+			}
+		}
+		res.Count("grpc_scenario_samples", int64(len(samples)))
+	}
+	res.Eval("grpc-scenario-failed-assertion", true)
+
 	// scenario gun, one call answered with Unavailable / ResourceExhausted / Aborted: requests at the target = samples
 	for _, code := range []int{14, 8, 10, 4} {
 		y := fmt.Sprintf(`calls:
